@@ -78,8 +78,9 @@ def fwht (data : Array Nat) (mtrunc : Nat) : Array Nat := Id.run do
   -- bits/2 rounds
   for _ in [0:P.bits / 2] do
     if dist4 ≤ order then
-      let mut r := 0
-      while r < mtrunc do
+      -- Go: `for r := 0; r < mtrunc; r += dist4` — `⌈mtrunc / dist4⌉` iterations
+      for q in [0:(mtrunc + dist4 - 1) / dist4] do
+        let r := q * dist4
         for i in [0:dist] do
           let off := r + i
           let t0 := data[off]!
@@ -94,7 +95,6 @@ def fwht (data : Array Nat) (mtrunc : Nat) : Array Nat := Id.run do
           data := data.set! (off + dist) t1
           data := data.set! (off + dist*2) t2
           data := data.set! (off + dist*3) t3
-        r := r + dist4
       dist := dist4
       dist4 := dist4 <<< 2
   return data
